@@ -286,7 +286,10 @@ Definition capture (fn : string) (uses : list string) (fr : frame) (g : glob) : 
 Fixpoint bind_captured (cap : list (string * value)) (e : env) : env :=
   match cap with [] => e | (x, v) :: r => bind_captured r (update x v e) end.
 
-Definition err (m : string) : value := VStr m.
+(* an error raised by the interpreter itself (data.NewErrorThrow / NewErrorThrowByName: undefined function, a jump
+   that leaves its function, foreach over a scalar, argument errors): a ThrowValue without an object, which
+   catch (Throwable | Exception | Error) accepts *)
+Definition err (m : string) : value := VErr m.
 
 (* observation of a whole run: echoed text + how it ended *)
 Inductive ending := EndOk | EndError | EndFuel.
